@@ -834,7 +834,7 @@ addmember(struct structbuilder *b, struct qualtype mt, char *name, int align, un
 			error(&tok.loc, "bit-field '%s' in packed struct is not supported", name);
 		if (!width && name)
 			error(&tok.loc, "bit-field '%s' with zero width must not have declarator", name);
-		if (width > mt.type->size * 8)
+		if (width > (mt.type->kind == TYPEBOOL ? 1 : mt.type->size * 8))
 			error(&tok.loc, "bit-field '%s' exceeds width of underlying type", name);
 		align = mt.type->align;
 		if (t->kind == TYPESTRUCT) {
